@@ -246,3 +246,7 @@ func ReplayMain() {
 	CheckFrozen()
 	fmt.Println("VERIF-DONE")
 }
+
+// LenOnly returns a slice of n elements of which only the length is meaningful: under the VM n may be symbolic
+// and any element access aborts the path; natively it is make([]T, n).  Used for size-accounting lemmas (C14).
+func LenOnly[T any](n int) []T { return make([]T, n) }
